@@ -56,8 +56,10 @@ def cases(rng, tier, Case):
                 for cfg in ("8Cs", "Cs8", "nebp8"):
                     res.append(Case("parse %s %d TW %s" % (cfg, nest, hx(doc)), "family", {"cfg": cfg, "nest": nest, "src": hx(doc)}, compare=len(doc) < 400))
     # wide, flat trees: recursion (walk, walk_mut, render, drop) is per level, never per sibling (seed C02-8)
-    for w in (3000, 20000) if not big else (3000, 20000, 100000):
-        for d in ("a\n\n" * w, "- a\n" * w, "*a* " * w, "> a\n\n" * w, "# a\n" * w, "a\\\n" * w, "[a](u)" * w):
+    for w in (3000, 20000):
+        for d in ("a\n\n" * w, "- a\n" * w, "*a* " * min(w, 6000), "> a\n\n" * w, "# a\n" * w, "a\\\n" * w, "[a](u)" * w):
+            # (delimiter matching is quadratic in the number of runs: the emphasis family stays at 6000 so that an unoptimised
+            # build under load stays far from the per-line time limit)
             res.append(Case("parse CsW 100 TW %s" % hx(d), "wide", {"cfg": "CsW", "nest": 100, "src": hx(d)}, compare=False))
     n = 300 if tier == "quick" else 20000
     for _ in range(n):
